@@ -4,6 +4,9 @@
 package trie
 
 import (
+	"bytes"
+
+	"github.com/golang/protobuf/proto"
 	"github.com/openacid/slim/encode"
 )
 
@@ -335,3 +338,12 @@ func vUniqSorted(ks []string) []string {
 	}
 	return ks
 }
+
+// vSameWire: do two generated protobuf messages serialise to the same bytes?  (Engine: equal
+// proto3 normal forms under A-PB.)
+func vSameWire(a, b interface{}) bool {
+	ba, e1 := proto.Marshal(a.(proto.Message))
+	bb, e2 := proto.Marshal(b.(proto.Message))
+	return e1 == nil && e2 == nil && bytes.Equal(ba, bb)
+}
+
